@@ -8,9 +8,10 @@ R = [[1], [1, 1], [1, 2], [2, 1], [9]]       # = MC_Ops!ReqV
 OPS = ["get", "multiget", "getnext", "multigetnext", "set", "multiset", "bulkget"]
 SINGLE = ("get", "getnext", "set")
 BASE = dict(Insts=("<-", "InstsV"), ReqOids=("<-", "ReqV"), MaxLen=2, Versions=("<-", "AllV"), OpsSet=("<-", "AllOps"),
-            Perturbs=("<-", "PertData"), ErrStatuses="{0}", MaxTicks=0, PinSecondRead=False, PinErrIndex=False, PinGetNextEnd=False)
-INV_C04 = ["ExactAnswers", "CountMismatchRefused", "OversizeRefused", "BulkFaithful", "NoNonSnmpException", "Soundness"]
-INV_C07 = ["Soundness", "Completeness", "Rejects", "CommunityVersionRefused"]
+            Perturbs=("<-", "PertData"), ErrStatuses="{0}", MaxTicks=0, PinSecondRead=False, PinErrIndex=False, PinGetNextEnd=False,
+            PinErrBeforeId=False, IdErrStatuses="{0}")
+INV_C04 = ["ExactAnswers", "CountMismatchRefused", "OversizeRefused", "SetReturnsConfirmed", "BulkFaithful", "NoNonSnmpException", "Soundness"]
+INV_C07 = ["Soundness", "Completeness", "Rejects", "WalkEndSound", "CommunityVersionRefused"]
 INV_C08 = ["ErrorSurfaces", "NoNonSnmpException"]
 PROTOS = ["v1", "v2c", "v3n", "v3a_md5", "v3a_sha", "v3p_md5", "v3p_sha"]
 
